@@ -320,6 +320,34 @@ func init() {
 				}
 				i++
 			}
+			// (2') sentences that come late in a long program: behind 64 KiB and 128 KiB of code, and with single edits there
+			for k, nfill := range []int{16000, 21000, 21800, 21840, 21846, 21850, 21900, 22000, 30000, 43690, 43700, 45000} {
+				if c.Mine(i) {
+					r := c.Rand(i)
+					var toks []lang.Tok
+					pr := wordsToToks([]string{"print"})[0]
+					for f := 0; f < nfill; f++ {
+						toks = append(toks, pr, lang.Tok{Kind: lang.TInt, Text: "12345"})
+					}
+					base := c17Base(r)
+					for len(base) < 8 {
+						base = append(base, c17Base(r)...)
+					}
+					c.Begin(i)
+					cs := c17One(c, i, append(append([]lang.Tok{}, toks...), base...), r, false, "late-in-a-long-program")
+					if cs.Verdict.Kind != lang.Accept {
+						c.Inconclusive("harness: generated long sentence not accepted by the reference recognizer")
+					}
+					// a few edits of the late part
+					for e := 0; e < 6; e++ {
+						ed := c17Mutate(r, base, c17Vocab[:len(c17Words)+4], false)
+						c17One(c, i, append(append([]lang.Tok{}, toks...), ed...), r, false, "late-in-a-long-program-edited")
+					}
+					c.Count("sentences_behind_64KiB_of_code", 1)
+					_ = k
+				}
+				i++
+			}
 			// (3) random sequences
 			nr := int64(c.Pick(30000, 1000000))
 			for k := int64(0); k < nr; k++ {
